@@ -205,8 +205,44 @@ def rule_char_sib(facts):
     return r
 
 
+def _skip_bytes_clause(facts, r):
+    """InputRef::skip_bytes(n) is `cursor += n`, unconditionally: the byte-oriented parsers (regex, number) hand it the length of
+    what they matched in the *slice*, so re-deriving the end position from token boundaries (a token loop, a clamp) moves the cursor
+    somewhere else whenever tokens and bytes differ (grapheme input)."""
+    bs = facts.find("input::InputRef::skip_bytes")
+    if not bs:
+        return 0
+    b = bs[0]
+    pv = Prov(b)
+    ws = []
+    for i, bl, s in mirq.assigns(b):
+        pl = s["place"]
+        fp = mirq.field_path(pl)
+        if fp and fp[-1] == "cursor" and pl["l"] == 1:
+            ws.append((i, pv.of_rvalue(s["rv"], 0)))
+
+    def is_sum(x):
+        if x[0] == "field":
+            x = x[1]
+        return x[0] == "bin" and x[1] in ("Add", "AddWithOverflow", "AddUnchecked") and \
+            {frozenset(x[2]), frozenset(x[3])} == {frozenset({("arg", 1, "cursor")}), frozenset({("arg", 2)})}
+    rets = set(mirq.return_blocks(b))
+    readers = [f["name"] for _, _, _, f in calls(b) if f is not None and (f["name"].startswith("next") or f["name"] in ("skip_while", "rewind", "rewind_input"))]
+    ok = len(ws) == 1 and all(is_sum(x) for x in ws[0][1]) and bool(ws[0][1]) \
+        and not (mirq.reachable(b, 0, avoid={ws[0][0]}) & rets) and not mirq.loops(b) and not readers
+    r.ob(ok)
+    r.samples.append({"skip_bytes": [fmt_roots(w) for _, w in ws]})
+    if not ok:
+        r.violations.append(V("REGEX-ANCHOR", b["qname"], "skip_bytes is cursor += n",
+                              "InputRef::skip_bytes must add exactly its argument to the cursor on every path (the regex / number parsers pass the "
+                              "byte length of their match): found %d cursor write(s) %s, loops=%d, token readers=%s"
+                              % (len(ws), [fmt_roots(w)[:80] for _, w in ws], len(mirq.loops(b)), readers), *loc(b)))
+    return 1
+
+
 def rule_regex_anchor(facts):
     r = RuleResult("REGEX-ANCHOR")
+    nsk = _skip_bytes_clause(facts, r)
     bs = facts.find("regex::Regex[Parser]::go")
     if len(bs) != 1:
         if "regex" in facts.features:
@@ -238,5 +274,5 @@ def rule_regex_anchor(facts):
                               "regex() must search the WHOLE input slice (look-behind context intact) anchored (Anchored::Yes) with "
                               ".range(cursor..) and advance by the match length; found: %s" % why, *loc(b)))
     r.explanation = "Regex::go: haystack = full_slice(), Anchored::Yes, range(cursor..), the search input is the ranged one, skip_bytes(match length)"
-    r.nontrivial = 1
+    r.nontrivial = 1 + nsk
     return r
